@@ -41,6 +41,54 @@ type linObs struct {
 	finished bool
 }
 
+// blockedErr: a released thread neither parked nor finished within the time limit.
+type blockedErr struct {
+	released int      // the thread that was released (-1: initial parking)
+	where    []string // park point of every thread when the time ran out
+	sched    []int    // schedule executed so far (the last entry is the step that did not complete)
+	progs    [][]string
+	doing    []int // index of the operation each thread is executing
+}
+
+func (b *blockedErr) Error() string {
+	return fmt.Sprintf("no thread parked or finished within 20s (released=%d where=%v)", b.released, b.where)
+}
+
+// behindCallback: some OTHER thread is parked at the entry of its onChange callback (its lock section is
+// done, its change not yet delivered) while the released thread cannot move.
+func (b *blockedErr) behindCallback() (int, bool) {
+	for t, w := range b.where {
+		if t != b.released && w == "callback" {
+			return t, true
+		}
+	}
+	return 0, false
+}
+
+func (b *blockedErr) opOf(t int) string {
+	if t < 0 || t >= len(b.progs) || b.doing[t] >= len(b.progs[t]) {
+		return "?"
+	}
+	return b.progs[t][b.doing[t]]
+}
+
+// monitorBlocked: change callbacks run with no lock held, so a thread parked in its callback must not stop
+// any other thread. Returns whether a violation was recorded.
+func monitorBlocked(mon *lib.Monitor, c linCase, b *blockedErr) bool {
+	holder, ok := b.behindCallback()
+	if !ok {
+		return false
+	}
+	in := c
+	in.Sched = commaList(intsToStrings(b.sched))
+	ho, bo := b.opOf(holder), b.opOf(b.released)
+	mon.Violate("C12/pkg-router/concurrent/"+opNames[strings.Split(ho, ":")[0]]+"/blocks-others-during-callback",
+		"change callbacks run with no lock held: while one thread is inside its onChange callback every other thread's operation must still complete", in,
+		fmt.Sprintf("thread %d completes %s while thread %d is inside the onChange callback of %s", b.released, bo, holder, ho),
+		fmt.Sprintf("thread %d did not complete %s within 20s (park points: %v)", b.released, bo, b.where))
+	return true
+}
+
 // runLinCase executes the case. If c.Sched is empty a schedule is drawn while running.
 func runLinCase(c linCase) (linObs, error) {
 	var obs linObs
@@ -119,6 +167,7 @@ func runLinCase(c linCase) (linObs, error) {
 
 	results := make([][]string, nt)
 	where := make([]string, nt) // current park point of each thread
+	releasedNow := -1
 	for t := 0; t < nt; t++ {
 		for _, o := range progs[t] {
 			pool[unTilde(strings.Split(o, ":")[1])] = true
@@ -169,7 +218,13 @@ func runLinCase(c linCase) (linObs, error) {
 			where[ev.tid] = ev.point
 			return ev, nil
 		case <-time.After(20 * time.Second):
-			return event{}, fmt.Errorf("no thread parked or finished within 20s (where=%v)", where)
+			mu.Lock()
+			doing := make([]int, nt)
+			for t := range doing {
+				doing[t] = len(results[t])
+			}
+			mu.Unlock()
+			return event{}, &blockedErr{released: releasedNow, where: append([]string(nil), where...), sched: append([]int(nil), obs.sched...), progs: progs, doing: doing}
 		}
 	}
 	// every thread first parks before its first op (or finishes at once)
@@ -191,6 +246,7 @@ func runLinCase(c linCase) (linObs, error) {
 		if where[t] == "done" {
 			return nil // stutter
 		}
+		releasedNow = t
 		release[t] <- struct{}{}
 		ev, err := wait()
 		if err != nil {
@@ -497,6 +553,9 @@ func runLin(f lib.Flags, res *lib.Result, drv *lib.Driver) {
 	for _, c := range cases {
 		o, err := runLinCase(c)
 		if err != nil {
+			if be, ok := err.(*blockedErr); ok {
+				monitorBlocked(mon, c, be)
+			}
 			tie.Fail(err)
 			return
 		}
